@@ -20,7 +20,16 @@ fn stamp(c: &LamportClock) -> Value {
 }
 
 fn sds_str(s: &SDS) -> String {
-    String::from_utf8_lossy(s.as_bytes()).to_string()
+    let b = s.as_bytes();
+    if b.len() > 4096 {
+        // a long value is observed through its length and a digest (traces stay small; equal values, equal text)
+        let mut h: u64 = 0xcbf29ce484222325;
+        for x in b {
+            h = (h ^ *x as u64).wrapping_mul(0x100000001b3);
+        }
+        return format!("<{} bytes fnv {:016x}>", b.len(), h);
+    }
+    String::from_utf8_lossy(b).to_string()
 }
 
 fn obs_lww(l: &redis_sim::replication::lattice::LwwRegister<SDS>) -> Value {
